@@ -223,7 +223,7 @@ func VerifC20AggEquiv() {
 	case 5:
 		match = regex // old syntax: a raw regex
 	}
-	iv, wt := verifDigits("interval", 1+f%2), verifDigits("wait", 2-f%2)
+	iv, wt := verifPosDigits("interval", 1+f%2), verifDigits("wait", 2-f%2)
 	ac.Interval, ac.Wait = verifC20Num(iv), verifC20Num(wt)
 	verifAssume(ac.Interval >= 1)
 	cmd := "addAgg " + ac.Function + " " + match + " " + format + " " + iv + " " + wt
@@ -358,7 +358,7 @@ var c20RouteTypes = []string{"sendAllMatch", "sendFirstMatch", "consistentHashin
 // symbolic digits.
 func c20CarbonDests(typ, key string) (texts []string, want []destination.VerifDestFieldsT) {
 	if typ == "consistentHashing" {
-		fl, sp := verifDigits("flush", 2), verifDigits("spoolsleep", 1)
+		fl, sp := verifPosDigits("flush", 2), verifDigits("spoolsleep", 1)
 		texts = []string{"10.0.0.1:2003:a flush=" + fl + " pickle=true", "10.0.0.2:2003:b spoolsleep=" + sp, "10.0.0.3:2003"}
 		w0 := destination.VerifC20DestDefaults(key, "10.0.0.1:2003:a", verifC20SpoolDir)
 		destination.VerifC20DestSet(&w0, "flush", "", verifC20Num(fl), false)
@@ -368,7 +368,7 @@ func c20CarbonDests(typ, key string) (texts []string, want []destination.VerifDe
 		w2 := destination.VerifC20DestDefaults(key, "10.0.0.3:2003", verifC20SpoolDir)
 		return texts, []destination.VerifDestFieldsT{w0, w1, w2}
 	}
-	rc, io := verifDigits("reconn", 3), verifDigits("iobuf", 2)
+	rc, io := verifPosDigits("reconn", 3), verifPosDigits("iobuf", 2)
 	texts = []string{"graphite.prod:2003 prefix=prod. spool=false pickle=true reconn=" + rc, "graphite.staging:2003 notRegex=^x iobuf=" + io + " unspoolsleep=7"}
 	w0 := destination.VerifC20DestDefaults(key, "graphite.prod:2003", verifC20SpoolDir)
 	w0.Prefix, w0.Pickle = "prod.", true
@@ -686,4 +686,18 @@ func VerifC20InitCmds() {
 	c.Init.Cmds = []string{"addBlack prefix a", "noSuchCommand x"}
 	verifAssert(InitCmd(&verifC20Table{}, c) != nil, "initcmd/bad-command-rejected")
 	verifCover("end")
+}
+
+// verifPosDigits: n symbolic digits denoting a value >= 1 (settings that cannot work with 0 -- flush,
+// reconnect and sync periods, iobuf, aggregation interval -- are refused by the constructors, see C14)
+func verifPosDigits(name string, n int) string {
+	d := verifDigits(name, n)
+	zero := true
+	for i := 0; i < len(d); i++ {
+		if d[i] != '0' {
+			zero = false
+		}
+	}
+	verifAssume(!zero)
+	return d
 }
